@@ -68,3 +68,18 @@ impl<'a> Rope<'a> {
   #[verifier::external_body]
   pub fn from_cow(value: &'a Cow<'a, str>) -> (r: Self) ensures r.wf(), r.bytes() == cow_str_bytes(value) { unimplemented!() }
 }
+// ---- RawBufferSource: the lazily decoded text (std::sync::OnceLock) ----
+#[verifier::external_type_specification]
+#[verifier::external_body]
+#[verifier::reject_recursive_types(T)]
+pub struct ExOnceLock<T>(std::sync::OnceLock<T>);
+/// what the cell holds (interior mutability: `get_or_init` fills it through `&self`; the contract only says what the call returns)
+pub uninterp spec fn lock_val<T>(c: &std::sync::OnceLock<T>) -> Option<T>;
+pub assume_specification<T, F: FnOnce() -> T>[std::sync::OnceLock::<T>::get_or_init](c: &std::sync::OnceLock<T>, f: F) -> (r: &T)
+  requires lock_val(c) is None ==> f.requires(()),
+  ensures lock_val(c) is Some ==> *r == lock_val(c)->0, lock_val(c) is None ==> f.ensures((), *r);
+/// the lossy UTF-8 decoding of a byte string, as bytes (std: String::from_utf8_lossy); uninterpreted: the views only have to agree on it
+pub uninterp spec fn lossy(b: Seq<u8>) -> Seq<u8>;
+/// W2: stands for `String::from_utf8_lossy(v).to_string()`
+#[verifier::external_body]
+pub fn lossy_string(v: &Vec<u8>) -> (r: String) ensures encode_utf8(r@) == lossy(v@) { String::from_utf8_lossy(v).to_string() }
